@@ -18,6 +18,12 @@ driver `harness/cmd/c01` builds the real `Config` from exactly these fields:
                it is an IP literal (no SNI is sent for those)
 * `cache`      a session cache is configured;  `minV`/`maxV`  `MinVersion`/`MaxVersion`
 * `clone`      the endpoint is given `cfg.Clone()` instead of `cfg`
+
+A *history* is a sequence of connections between the same two parties: the identity of each
+side (key pairs, certificates, CA pools, policy, names, version window, the client's session
+cache) stays, while `Reconf` lists what an operator may change from one connection to the
+next: the enabled suites and protocols of either side, whether the server configuration in
+use refers to the (shared) server session cache, and whether a `Clone()` is handed out.
 -/
 namespace Gotlcp.Negotiate
 
@@ -105,6 +111,30 @@ structure Agreed where
   client : View
   server : View
   deriving DecidableEq, Repr, Inhabited
+
+/-- the reconfigurable part of a pair of configurations (one connection of a history) -/
+structure Reconf where
+  cs : Option (List Nat) := none
+  calpn : List String := []
+  cclone : Bool := false
+  ss : Option (List Nat) := none
+  salpn : List String := []
+  scache : Bool := false
+  sclone : Bool := false
+  deriving DecidableEq, Repr, Inhabited
+
+/-- the client configuration of a connection: the party `c` with the settings of `r` -/
+def Reconf.client (r : Reconf) (c : ClientCfg) : ClientCfg :=
+  { c with suites := r.cs, alpn := r.calpn, clone := r.cclone }
+
+/-- the server configuration of a connection: the party `s` with the settings of `r` -/
+def Reconf.server (r : Reconf) (s : ServerCfg) : ServerCfg :=
+  { s with suites := r.ss, alpn := r.salpn, cache := r.scache, clone := r.sclone }
+
+/-- the settings a pair of configurations has -/
+def Reconf.of (c : ClientCfg) (s : ServerCfg) : Reconf :=
+  { cs := c.suites, calpn := c.alpn, cclone := c.clone,
+    ss := s.suites, salpn := s.alpn, scache := s.cache, sclone := s.clone }
 
 /-- does a chain issued by `f` verify against the pool `c`? (x509 verdict, an input) -/
 def CAKind.verifies : CAKind → Family → Bool
